@@ -326,7 +326,7 @@ impl World {
             t_enter,
             reads_enter,
         });
-        if self.call_idx > self.call_budget {
+        if self.call_idx > self.call_budget || self.tape.exhausted {
             if self.harness_error.is_none() {
                 self.harness_error = Some(format!("call budget {} exceeded", self.call_budget));
             }
